@@ -122,8 +122,10 @@ Flag(cond, why) == IF cond THEN {why} ELSE {}
 
 \* expiration map: add / update / del as the code does them.  (expirationMap.update also deletes
 \* from storageBucket(zero time) when the old expiration is zero: that bucket never exists.)
-EmDel(e, h, exp) == IF FixLate THEN {p \in e : p[2] # h}
-                    ELSE IF exp = 0 THEN e ELSE {p \in e : ~(p[1] = Bucket(exp) /\ p[2] = h)}
+EmDel(e, h, exp) == IF exp = 0 THEN e ELSE {p \in e : ~(p[1] = Bucket(exp) /\ p[2] = h)}
+\* FixLate (repair of F5): an expiration whose bucket is already behind the sweep frontier is filed in
+\* the next bucket to be cleaned; del/update still look in storageBucket(exp), so such an entry can
+\* stay behind as a stale index entry until that bucket is swept (the sweep re-checks the store).
 EffBucket(exp) == IF FixLate /\ Bucket(exp) <= lastCleaned THEN lastCleaned + 1 ELSE Bucket(exp)
 EmAdd(e, h, conf, exp) ==
   IF exp = 0 THEN e
@@ -450,20 +452,30 @@ SweepGrab ==       \* under the em lock: take whole buckets, advance the frontie
                  closed, met, nextVal, ops, exitCnt, evictCnt, rejectCnt, accepted, refused, valKey, 
                  delOblig, waitCover, mustMiss, clearOwed, gets, dropped, clrOverlap, raised, bad>>
 
-SweepCheck(x) ==   \* store.Expiration under RLock; `expr.After(now)` => skip
+SweepCheck(x) ==   \* code as it was: store.Expiration under RLock, `expr.After(now)` => skip.
+                   \* FixAtomic (repair of F4): store.DelExpired - check and delete under one shard lock
   /\ apc = "sweep_check" /\ x \in sweepQ
   /\ sweepQ' = sweepQ \ {x}
-  /\ LET e == store[x[1]] IN
-     IF e.exp > sweepNow \/ (FixZero /\ e.exp = 0)
-       THEN /\ apc' = IF sweepQ \ {x} = {} THEN "idle" ELSE "sweep_check"
-            /\ UNCHANGED areg
-       ELSE /\ apc' = "sweep_poldel"
-            /\ areg' = [item |-> [NoItem EXCEPT !.t = "sweep", !.h = x[1], !.conf = x[2], !.exp = e.exp],
-                        victims |-> <<>>]
-  /\ UNCHANGED <<store, em, lastCleaned, pol, used, maxCost, door, cnt, buf, sendq, sweepNow, pc, creg, 
-                 now, tickPending, running, stopq, closed, met, nextVal, ops, exitCnt, evictCnt, 
-                 rejectCnt, accepted, refused, valKey, delOblig, waitCover, mustMiss, clearOwed, gets, 
-                 dropped, clrOverlap, raised, bad>>
+  /\ LET e == store[x[1]]
+         next == IF sweepQ \ {x} = {} THEN "idle" ELSE "sweep_check" IN
+     IF FixAtomic
+       THEN IF e # NULL /\ ConfOK(x[2], e.conf) /\ e.exp # 0 /\ e.exp <= sweepNow
+              THEN /\ store' = [store EXCEPT ![x[1]] = NULL]
+                   /\ em' = EmDel(em, x[1], e.exp)
+                   /\ apc' = "sweep_poldel"
+                   /\ areg' = [item |-> [NoItem EXCEPT !.t = "sweep", !.h = x[1], !.conf = x[2], !.exp = e.exp, !.val = e.val],
+                               victims |-> <<>>]
+              ELSE apc' = next /\ UNCHANGED <<areg, store, em>>
+       ELSE /\ UNCHANGED <<store, em>>
+            /\ IF e.exp > sweepNow \/ (FixZero /\ e.exp = 0)
+                 THEN apc' = next /\ UNCHANGED areg
+                 ELSE /\ apc' = "sweep_poldel"
+                      /\ areg' = [item |-> [NoItem EXCEPT !.t = "sweep", !.h = x[1], !.conf = x[2], !.exp = e.exp],
+                                  victims |-> <<>>]
+  /\ UNCHANGED <<lastCleaned, pol, used, maxCost, door, cnt, buf, sendq, sweepNow, pc, creg, now, 
+                 tickPending, running, stopq, closed, met, nextVal, ops, exitCnt, evictCnt, rejectCnt, 
+                 accepted, refused, valKey, delOblig, waitCover, mustMiss, clearOwed, gets, dropped, 
+                 clrOverlap, raised, bad>>
 
 SweepPolDel ==     \* policy.Cost + policy.Del
   /\ apc = "sweep_poldel"
@@ -478,17 +490,19 @@ SweepPolDel ==     \* policy.Cost + policy.Del
                  accepted, refused, valKey, delOblig, waitCover, mustMiss, clearOwed, gets, dropped, 
                  clrOverlap, raised, bad>>
 
-SweepStoreDel ==   \* store.Del(key, conflict) + onEvict
+SweepStoreDel ==   \* code as it was: store.Del(key, conflict) + onEvict.  FixAtomic: only onEvict is left
   /\ apc = "sweep_storedel"
-  /\ LET h == areg.item.h  e == store[h]
-         match == e # NULL /\ ConfOK(areg.item.conf, e.conf)
-         still == match /\ (~FixAtomic \/ (e.exp # 0 /\ e.exp <= sweepNow)) IN
-     /\ IF still THEN /\ store' = [store EXCEPT ![h] = NULL]
-                      /\ em' = EmDel(em, h, e.exp)
-                      /\ exitCnt' = Exit1(exitCnt, e.val) /\ evictCnt' = Exit1(evictCnt, e.val)
-                 ELSE UNCHANGED <<store, em, exitCnt, evictCnt>>
-     /\ bad' = bad \cup Flag(still /\ e.exp = 0, "C14 sweep removed an entry without TTL")
-                   \cup Flag(still /\ e.exp > sweepNow, "C14 sweep removed an entry whose TTL has not elapsed")
+  /\ IF FixAtomic
+       THEN /\ exitCnt' = Exit1(exitCnt, areg.item.val) /\ evictCnt' = Exit1(evictCnt, areg.item.val)
+            /\ UNCHANGED <<store, em, bad>>
+       ELSE LET h == areg.item.h  e == store[h]
+                still == e # NULL /\ ConfOK(areg.item.conf, e.conf) IN
+            /\ IF still THEN /\ store' = [store EXCEPT ![h] = NULL]
+                             /\ em' = EmDel(em, h, e.exp)
+                             /\ exitCnt' = Exit1(exitCnt, e.val) /\ evictCnt' = Exit1(evictCnt, e.val)
+                        ELSE UNCHANGED <<store, em, exitCnt, evictCnt>>
+            /\ bad' = bad \cup Flag(still /\ e.exp = 0, "C14 sweep removed an entry without TTL")
+                          \cup Flag(still /\ e.exp > sweepNow, "C14 sweep removed an entry whose TTL has not elapsed")
   /\ apc' = IF sweepQ = {} THEN "idle" ELSE "sweep_check"
   /\ UNCHANGED <<lastCleaned, pol, used, maxCost, door, cnt, buf, sendq, areg, sweepQ, sweepNow, pc, creg, 
                  now, tickPending, running, stopq, closed, met, nextVal, ops, rejectCnt, accepted, 
@@ -614,7 +628,7 @@ Next ==
   \/ \E c \in Clients, k \in Keys : DelBegin(c, k) \/ Get(c, k) \/ GetTTL(c, k)
   \/ \E c \in Clients, m \in MaxCosts : SetMaxCost(c, m)
   \/ AppDequeue \/ AppStoreSet \/ AppReject \/ AppVictim \/ AppDelStore
-  \/ SweepGrab \/ (\E x \in sweepQ : SweepCheck(x)) \/ SweepPolDel \/ SweepStoreDel
+  \/ SweepGrab \/ (\E x \in Hashes \X ({0} \cup {ConfOf[k] : k \in Keys}) : SweepCheck(x)) \/ SweepPolDel \/ SweepStoreDel
   \/ Tick
   \/ \E c \in Clients, kind \in {"clear", "close"} : ClearCall(c, kind)
   \/ \E c \in Clients : ClearStop(c) \/ ClearDrain(c) \/ ClearPolicy(c) \/ ClearStore(c)
